@@ -15,6 +15,14 @@ run_pipe(ctx):
      FollowsParent; no ceiling at all: LeaseWithinGrant), two reachability configs; simulated behaviours become
      scripts whose "jump" steps move the stored timestamps of the answer cache and the delegation cache
      (virtual clock, overlay tag c08p).  Same oracle, the granted lease read as min(TTL, 12 h).
+  4. the denied-subtree family (run_neg): the same module with cfg.kind = "negsub" -- NEGATIVE answers.  Version 1 of c.p.
+     lacks d.c.p. (validated NXDOMAIN: RFC 8020 cut + RFC 8198 proofs + exact entry), every re-pointed version has d.c.p. and
+     www.d.c.p.; a copy that lacks the subtree may hold its denials back for longer than the lease they are learned under
+     (cfg.lat), so the cache is handed a cut deadline that is already past.  Exhaustive (MC_LP_neg*), model mutant CutAdmitsPast
+     (a past deadline bounds nothing: FollowsParent), two reachability configs; simulated behaviours become real-time scripts
+     with QueryX steps for d.c.p. / www.d.c.p.  The SOA serial of every copy of c.p. encodes the delegation versions, so an
+     NXDOMAIN reply names the delegation it was learned through and is judged like a positive one -- only where the zone the
+     parents delegate to at that moment HAS the name.
 """
 import json
 import os
@@ -204,6 +212,179 @@ def pick_long(ctx, behs, want):
     return picked, len(order)
 
 
+# ---- denied-subtree family (negative answers) ------------------------------------------------------------------------
+NEG_NEG = (("MC_LP_reg_cutpast.cfg", "FollowsParent"), ("MC_LP_reach_neg.cfg", "NeverStaleDenial"),
+           ("MC_LP_reach_past.cfg", "NeverPastLeaseTension"))
+XNAME = {1: "d", 2: "b"}      # LeasePipe XNames -> harness name tags (d.c.p. / www.d.c.p.)
+NEG_SIM = {"quick": (1500, 14, 10), "thorough": (8000, 16, 48)}     # behaviours simulated, depth, scenarios wanted
+
+
+def _exp_x(st):
+    rp = st["reply"]
+    if rp == [9, 9]:
+        return "any"           # SERVFAIL predicted (the denial's signer is no longer the copy the parent names)
+    if rp == [0, 0]:
+        return "nx"
+    return ("nx%d.%d" if st["rneg"] else "%d.%d") % (rp[0], rp[1])
+
+
+def _scenario_neg(sid, beh):
+    """One behaviour of the negsub family -> real-time script (1 tick = 1 s; a slow denial of lat ticks is held back
+    lat s - 0.5 s, so it is written strictly between two ticks)."""
+    cfg = beh[0][1]["cfg"]
+    lat = cfg["lat"]
+    steps, changes, feats, late = [], [], set(), []
+    i = nx = 0
+    blind = False
+    for k in range(1, len(beh)):
+        label, st = beh[k]
+        pre = beh[k - 1][1]
+        name = label.split("(")[0].strip()
+        t = pre["now"]
+        if name == "Tick":
+            continue
+        at = t * 1000 + 60 + 45 * i
+        i += 1
+        if name == "Query":
+            steps.append({"at": at, "op": "query", "exp": "any" if blind else _exp(st["reply"]), "name": "w"})
+        elif name == "Hot":
+            steps.append({"at": at, "op": "hot", "until": (t + 1) * 1000 + 20, "every": 300})
+        elif name == "QueryX":
+            n = int(label.split("(")[1].split(")")[0])
+            nx += 1
+            g = _grants(pre)
+            for p, c in late:
+                if not _current(pre, p, c) and pre["pver"] != 0 and g[(p, c)] <= t:
+                    cv = pre["cver"]
+                    cv = cv if isinstance(cv, list) else [cv[x] for x in sorted(cv)]
+                    if cv[pre["pver"] - 1] >= 2:
+                        feats.add("tension")    # the question the CutAdmitsPast mutant answers from the dead delegation
+            rp = st["reply"]
+            if st["rneg"] and rp != [9, 9]:
+                if not _current(st, rp[0], rp[1]):
+                    feats.add("staleneg")       # a stale denial served inside its lease
+                if lat > 0 and st["now"] > t and st["cutx"]["pv"] == 0 and st["leaseC"]["exp"] > st["now"]:
+                    feats.add("late")           # written after its lease: nothing admitted, the descent repeated
+                    late.append((rp[0], rp[1]))
+            e = "any" if blind else _exp_x(st)
+            if rp == [9, 9]:
+                blind = True                    # a SERVFAIL is remembered (RFC 9520): later predictions do not apply
+            steps.append({"at": at, "op": "query", "exp": e, "name": XNAME[n]})
+        elif name in OPS:
+            steps.append({"at": at, "op": OPS[name]})
+            changes.append(OPS[name])
+        else:
+            raise vf.MachineryError("unknown LeasePipe action %r in the denied-subtree family" % label)
+    while steps and steps[-1]["op"] not in ("query", "hot"):
+        steps.pop()
+    sc = {"id": sid, "signed": True, "pNS": cfg["pNS"], "pDS": cfg["pDS"], "cNS": cfg["cNS"], "cDS": cfg["cDS"],
+          "childTTL": cfg["childTTL"], "child": cfg["child"], "deep": False, "valDelayMs": 0, "steps": steps,
+          "wire": False, "prefetch": 0, "kind": "negsub", "latMs": lat * 1000 - 500 if lat > 0 else 0}
+    usable = bool(changes) and nx >= 1 and any(x["op"] not in ("query", "hot") for x in steps)
+    return sc, changes, feats, usable
+
+
+def pick_neg(ctx, behs, want):
+    rnd = random.Random(ctx.seed)
+    strata, seen = {}, set()
+    for bi, b in enumerate(behs):
+        if len(b) < 4:
+            continue
+        sc, changes, feats, usable = _scenario_neg("N%04d" % bi, b)
+        if not usable:
+            continue
+        key = json.dumps({k: v for k, v in sc.items() if k != "id"}, sort_keys=True)
+        if key in seen:
+            continue
+        seen.add(key)
+        cls = "0tension" if "tension" in feats else "1staleneg" if "staleneg" in feats else "2plain"
+        sc["feats"] = sorted(feats)
+        strata.setdefault("%s|%s|l%d|c%d" % (cls, changes[0], sc["latMs"] > 0, _lease_of(sc, "c")), []).append(sc)
+    order = sorted(strata)
+    for s in strata.values():
+        rnd.shuffle(s)
+    share = {"0tension": 0.5, "1staleneg": 0.3, "2plain": 0.2}
+    picked = []
+    for cl in sorted(share):
+        names = [n for n in order if n.startswith(cl)]
+        rnd.shuffle(names)
+        quota, got = int(round(want * share[cl])), 0
+        while got < quota and any(strata[n] for n in names):
+            for n in names:
+                if strata[n] and got < quota:
+                    picked.append(strata[n].pop())
+                    got += 1
+    while len(picked) < want and any(strata.values()):
+        for s in order:
+            if strata[s] and len(picked) < want:
+                picked.append(strata[s].pop())
+    for i, sc in enumerate(picked):
+        sc["wire"] = i % 2 == 1
+        sc["id"] += "w" if sc["wire"] else "m"
+    return picked, len(order)
+
+
+def prepare_neg(ctx):
+    """Model part of the denied-subtree family: exhaustive config, the mutant and reachability twins, simulation."""
+    thorough = ctx.tier == "thorough"
+    num, depth, want = NEG_SIM["thorough" if thorough else "quick"]
+
+    def neg(cfg, inv):
+        def run():
+            r = ctx.tlc(MOD, "MC_LP.tla", cfg, workers=2, timeout=300, heap="2g", must_pass=False, count=False, tag="regression-must-fail")
+            if r.violated != inv:
+                raise vf.MachineryError("LeasePipe %s no longer violates %s (got %s): vacuous model?" % (cfg, inv, r.violated))
+        return run
+    jobs = [lambda: ctx.tlc(MOD, "MC_LP.tla", "MC_LP_neg.cfg", workers=4, timeout=900, heap="4g", tag="negsub-exhaustive")]
+    if thorough:
+        jobs.append(lambda: ctx.tlc(MOD, "MC_LP.tla", "MC_LP_neg_full.cfg", workers=8, timeout=2400, heap="8g", tag="negsub-exhaustive"))
+    jobs += [neg(c, i) for c, i in NEG_NEG]
+    with ThreadPoolExecutor(max_workers=4) as ex:
+        fsim = ex.submit(lambda: ctx.tlc_behaviours(MOD, "MC_LP.tla", "Sim_LP_neg.cfg", num=num, depth=depth, timeout=900))
+        futs = [ex.submit(j) for j in jobs]
+        behs = fsim.result()
+        for f in futs:
+            f.result()
+    picked, nstrata = pick_neg(ctx, behs, want)
+    fc = {}
+    for sc in picked:
+        for f in sc["feats"] or ["plain"]:
+            fc[f] = fc.get(f, 0) + 1
+    ctx.log("C08 pipeline, denied-subtree family: %d behaviours simulated, %d strata, %d scenarios picked, features %s" % (len(behs), nstrata, len(picked), fc))
+    if len(picked) < min(want, 8) or fc.get("tension", 0) < 3 or fc.get("late", 0) < 3 or fc.get("staleneg", 0) < 2:
+        raise vf.MachineryError("LeasePipe denied-subtree simulation: %d usable scenarios, features %s (vacuous)" % (len(picked), fc))
+    return picked, fc
+
+
+def run_neg(ctx, prepared):
+    """The negative-answer dimension (see the module docstring, 4.): replay on the real pipeline, in real time."""
+    picked, fc = prepared
+    ctx.assumptions += [
+        "C08 pipeline, denied-subtree family: real time, NS/DS TTLs 1..2 s, signed hierarchy; a copy of c.p. without d.c.p. holds its denials "
+        "back 1.5 s (longer than a 1 s lease, shorter than a 2 s one); an NXDOMAIN reply is judged only when its SOA names a copy of c.p. the "
+        "parents had stopped delegating to before the query started, the query started after the most lenient lease of that copy (same tolerance "
+        "as for answers) and the copy the parents delegate to at that moment has the name; every other NXDOMAIN / SERVFAIL is not judged",
+    ]
+    # (quick: every scenario gets its own worker -- one round of at most Horizon + 2 s)
+    res = ctx.go_driver("./c08pipe", "TestLeasePipeline", {"scenarios": picked, "workers": min(len(picked), 12)}, name="c08pipe_neg", timeout=900)
+    ctx.take_driver_result(res, "[C08 pipeline, denied subtree] ")
+    c = res.get("counters") or {}
+    ctx.cov["replay"]["c08_pipeline_negsub"] = {"scenarios": len(picked), "ran": res["cases"], "features": fc, "drift": res["drift"],
+                                                "drift_notes": (res.get("drift_notes") or [])[:8], "skipped": (res.get("skipped") or [])[:8], "counters": c}
+    if res.get("violations"):
+        return res
+    if res["cases"] < len(picked) - 2:
+        raise vf.MachineryError("C08 denied-subtree family ran %d of %d scenarios (skipped: %s)" % (res["cases"], len(picked), (res.get("skipped") or [])[:3]))
+    # the real run must have been where the family aims: denials written after their lease, and questions about the subtree
+    # answered by the copy the parents point at afterwards; denials served at all (current or leased)
+    if (c.get("neg_denial_written_after_lease", 0) < 2 or c.get("neg_followed_parent_after_late_denial", 0) < 2
+            or c.get("reply_neg_current", 0) + c.get("reply_neg_leased", 0) < len(picked) // 2):
+        raise vf.MachineryError("C08 denied-subtree replay is vacuous: %s" % c)
+    if res["drift"] > len(picked):
+        raise vf.MachineryError("C08 denied-subtree family: %d drift notes on %d scenarios (binding lost): %s" % (res["drift"], len(picked), (res.get("drift_notes") or [])[:3]))
+    return res
+
+
 def _use_c08p(ctx):
     """the harness needs the c08p shifters (overlay tag c08p): rebuild the overlay list if it was made without them"""
     if "c08p" not in ctx.overlay_tags:
@@ -309,11 +490,19 @@ def run_pipe(ctx):
         "C08 pipeline: real time, NS/DS TTLs 1..3 s (the long-lease family, under a virtual clock, covers TTLs around the 12 h ceiling)",
         "C08 pipeline: tolerance on a lease end = end of the client query during which the parent served the referral, minus delays the script "
         "injected afterwards, + 30 ms (400 ms when the referral was served outside any client query)",
-        "C08 pipeline: NXDOMAIN / SERVFAIL replies are never judged (truth-or-SERVFAIL shape); replies inside the tolerance window are 'gray'",
+        "C08 pipeline: NXDOMAIN / SERVFAIL replies are never judged (truth-or-SERVFAIL shape) -- except, in the denied-subtree family, an "
+        "NXDOMAIN whose SOA names the copy of c.p. it was learned from; replies inside the tolerance window are 'gray'",
     ]
     _use_c08p(ctx)
     # ---- 0. the long-lease family (12 h ceiling), virtual clock: cheap, first ----------------
-    run_long(ctx)
+    # (the model part of the denied-subtree family -- TLC only -- runs next to it)
+    ctx.spec_dir(MOD)
+    with ThreadPoolExecutor(max_workers=1) as bg:
+        fneg = bg.submit(lambda: prepare_neg(ctx))
+        run_long(ctx)
+        prepared = fneg.result()
+    # ---- 0b. the denied-subtree family (negative answers), real time ---------------------------
+    run_neg(ctx, prepared)
     # ---- 1. model -------------------------------------------------------------------------
     ctx.tlc(MOD, "MC_LP.tla", "MC_LP_quick.cfg", workers=6, timeout=900, heap="6g")
     if thorough:
@@ -392,7 +581,8 @@ def replay_pipe(ctx, path):
         return False
     _use_c08p(ctx)
     # the property statement the replay is judged by
-    ctx.tlc(MOD, "MC_LP.tla", "MC_LP_long.cfg" if sc.get("long") else "MC_LP_quick.cfg", workers=6, timeout=900, heap="6g")
+    ctx.tlc(MOD, "MC_LP.tla", "MC_LP_long.cfg" if sc.get("long") else "MC_LP_neg.cfg" if sc.get("kind") == "negsub" else "MC_LP_quick.cfg",
+            workers=6, timeout=900, heap="6g")
     scs = []
     for k in range(3):
         c = dict(sc)
